@@ -93,9 +93,18 @@ func (q *queueRun) content(name string) [][]byte {
 }
 
 // submit offers one batch. who identifies the submitter, grp > 0 marks a concurrent phase.
+// refuseWrite as a fuse value: the datastore refuses the operation's write with an error instead of dying.
+const refuseWrite = -2
+
 func (q *queueRun) submit(who int, name string, chain string, fuse int, grp int) {
 	if q.seq == nil {
 		return
+	}
+	wf := fuse == refuseWrite
+	if wf {
+		fuse = -1
+		q.kv.FailWrite(1)
+		defer q.kv.FailWrite(0)
 	}
 	if fuse >= 0 {
 		q.kv.Arm(fuse)
@@ -120,12 +129,18 @@ func (q *queueRun) submit(who int, name string, chain string, fuse int, grp int)
 	case name == "":
 		res = "empty"
 	}
-	q.c.Tr.Emit("QSubmit", world.F{"node": "seq", "who": who, "c": name, "k": batchHash(q.content(name)), "res": res, "grp": grp})
+	q.c.Tr.Emit("QSubmit", world.F{"node": "seq", "who": who, "c": name, "k": batchHash(q.content(name)), "res": res, "grp": grp, "wf": wf})
 }
 
 func (q *queueRun) next(fuse int) {
 	if q.seq == nil {
 		return
+	}
+	wf := fuse == refuseWrite
+	if wf { // the datastore refuses the next write (the delete of the record) with an error; no crash
+		fuse = -1
+		q.kv.FailWrite(1)
+		defer q.kv.FailWrite(0)
 	}
 	if fuse >= 0 {
 		q.kv.Arm(fuse)
@@ -151,7 +166,7 @@ func (q *queueRun) next(fuse int) {
 		}
 		k = batchHash(res.Batch.Transactions)
 	}
-	q.c.Tr.Emit("QNext", world.F{"node": "seq", "c": c, "k": k, "res": r})
+	q.c.Tr.Emit("QNext", world.F{"node": "seq", "c": c, "k": k, "res": r, "wf": wf})
 }
 
 func (q *queueRun) drain() {
@@ -172,6 +187,9 @@ func (q *queueRun) apply(op string, fuse int) {
 	case "N":
 		q.next(fuse)
 	case "R":
+		if fuse == refuseWrite {
+			fuse = -1
+		}
 		q.restart(fuse)
 	case "Se":
 		q.submit(1, "", world.ChainID, fuse, 0)
@@ -179,7 +197,7 @@ func (q *queueRun) apply(op string, fuse int) {
 		q.submit(1, "x", "foreign-chain", fuse, 0)
 	default:
 		name := op[1:]
-		if fuse >= 0 { // a submission that may crash gets unique contents, so that "did it survive" is observable
+		if fuse >= 0 || fuse == refuseWrite { // a submission that may crash / be refused gets unique contents, so that "did it survive" is observable
 			q.uniq++
 			name = fmt.Sprintf("%s#%d", name, q.uniq)
 		}
@@ -250,6 +268,38 @@ func RunQueue(c *Ctx) {
 			q.drain()
 			c.Count("crashruns", 1)
 		}
+	}
+	// refused writes (the datastore returns an error for one write, the process lives on): a take whose record
+	// cannot be deleted, a submission whose record cannot be written; then more operations and a restart
+	nw := 120
+	if c.Thorough() {
+		nw = 1200
+	}
+	for r := 0; r < nw; r++ {
+		l := 3 + rng.Intn(6)
+		ops := make([]string, l)
+		for i := range ops {
+			ops[i] = queueOps[rng.Intn(len(queueOps))]
+		}
+		at := rng.Intn(l)
+		if r%2 == 0 { // make sure a take of a non-empty queue is hit often
+			ops[0], ops[1] = "Sx", "Sy"
+			at = 2 + rng.Intn(l-2)
+			ops[at] = "N"
+		}
+		q := newQueueRun(c, fmt.Sprintf("wfail/%d", r), []int{0, 2, 4}[r%3])
+		for i, op := range ops {
+			f := -1
+			if i == at {
+				f = refuseWrite
+			}
+			q.apply(op, f)
+		}
+		if r%3 != 0 {
+			q.restart(-1)
+		}
+		q.drain()
+		c.Count("wfailruns", 1)
 	}
 	// submitters racing for the last slot of a bounded queue, then a restart
 	for r := 0; r < 8; r++ {
